@@ -275,7 +275,7 @@ static void run_chain(Node *n) {
 }
 
 // eval2() hands floating-typed nodes to eval_double(); none exist here (cut, asserted unreachable)
-double cut_eval_double(Node *node) {
+long double cut_eval_double(Node *node) {
   VASSERT(0, "eval_double reached on an integer-only initializer");
   __CPROVER_assume(0);
   return 0;
